@@ -70,20 +70,20 @@ def _recording_partitioner():
     return nndvi_mod, NNSpacePartitioner, Rec
 
 
-def run(name, params, batches, key, frames=None, as_object=False):
+def run(name, params, batches, key, frames=None, as_object=False, rebase_at=frozenset()):
     if name == "NNDVI":
         # the NN-DVI distance is not published by the detector: it is read off the partitioner the detector builds in each update
         nndvi_mod, orig, Rec = _recording_partitioner()
         if hasattr(nndvi_mod, "NNSpacePartitioner"):
             nndvi_mod.NNSpacePartitioner = Rec
             try:
-                return _run(name, params, batches, key, frames, as_object)
+                return _run(name, params, batches, key, frames, as_object, rebase_at)
             finally:
                 nndvi_mod.NNSpacePartitioner = orig
-    return _run(name, params, batches, key, frames, as_object)
+    return _run(name, params, batches, key, frames, as_object, rebase_at)
 
 
-def _run(name, params, batches, key, frames=None, as_object=False):
+def _run(name, params, batches, key, frames=None, as_object=False, rebase_at=frozenset()):
     """frames: None (ndarrays) or a list of index arrays - batch i is then handed over as a DataFrame carrying those row labels
     (a shuffled frame keeps its labels, e.g. after df.sample(frac=1))"""
     import pandas as pd
@@ -91,20 +91,24 @@ def _run(name, params, batches, key, frames=None, as_object=False):
     det = zoo.make(name, params)
     out = []
     for i, X in enumerate(batches):
-        np.random.seed(rngtap.seed_for(key, i))
+        rebase = i in rebase_at  # the user re-baselines in the middle of the history
+        if not (isinstance(key, tuple) and key[0] == "seed_once") or i == 0:
+            # "under a fixed seed": either numpy is seeded before every call, or once at the start of the history (then the random
+            # draws of a call also depend on how much every earlier call consumed - which must not depend on row order either)
+            np.random.seed(rngtap.seed_for(key, i))
         if frames is not None:
             arg = pd.DataFrame(np.asarray(X).copy(), columns=["c%d" % j for j in range(X.shape[1])], index=frames[i])
-            if i == 0 and name != "KdqTreeBatch":
+            if (i == 0 and name != "KdqTreeBatch") or rebase:
                 det.set_reference(arg)
             else:
                 det.update(arg)
         elif as_object:
             # the same numbers in an object-dtype array: whole numbers as Python ints, the others as Python floats
             arg = np.array([[int(v) if float(v).is_integer() else float(v) for v in r] for r in np.asarray(X).tolist()], dtype=object)
-            zoo.feed(det, name, arg, first=(i == 0))
+            det.set_reference(arg) if rebase else zoo.feed(det, name, arg, first=(i == 0))
         else:
             _Rec.last = None
-            zoo.feed(det, name, X, first=(i == 0))
+            det.set_reference(np.asarray(X).copy()) if rebase else zoo.feed(det, name, X, first=(i == 0))
         o = {"state": det.drift_state}
         if name in ("HDDDM", "CDBD"):
             o["distance"] = zoo.fl(det.current_distance) if i > 0 else None
@@ -137,6 +141,9 @@ def run_case(case, ctx):
         m = min(len(b) for b in batches)
         batches = [b[:m] for b in batches]
     key = case.get("seed_key", case["id"])
+    if name in ("NNDVI", "KdqTreeBatch") and rng.random() < 0.5:
+        key = ("seed_once", key)
+        ctx.count("histories_seeded_once_at_the_start")
     as_frames = bool(rng.random() < 0.3)
     if rng.random() < 0.25:
         # records that arrive ordered by one of their features (a counter, a timestamp, a sorted export): the original history is
@@ -161,6 +168,17 @@ def run_case(case, ctx):
         as_object = True
         batches = [np.where((np.arange(len(b)) % 3 == int(rng.integers(0, 3)))[:, None], np.round(b), b) for b in batches]
         ctx.count("histories_as_object_arrays")
+    rebase_at = set()
+    if rng.random() < (0.6 if name == "NNDVI" else 0.3) and len(batches) >= 5:
+        # the same batch submitted twice in a row (a replayed message), and a batch submitted again right after the user re-baselined on
+        # other data: in the original history the repeats arrive in identical row order, in the permuted histories they do not
+        j_ = int(rng.integers(2, len(batches) - 1))
+        batches = batches[:j_] + [batches[j_ - 1].copy()] + batches[j_:]
+        if rng.random() < 0.6 and name != "NNDVI":
+            r_ = int(rng.integers(2, len(batches) - 1))
+            batches = batches[:r_] + [batches[r_], batches[r_ - 1].copy()] + batches[r_ + 1:]
+            rebase_at = {r_}
+        ctx.count("histories_with_repeated_batches")
     labels = None
     if as_frames:
         ctx.count("histories_as_labelled_frames")
@@ -179,7 +197,7 @@ def run_case(case, ctx):
         except (ValueError, TypeError):
             as_object = False  # object arrays are refused outright: nothing to permute
             ctx.count("object_arrays_refused")
-    orig = run(name, params, batches, key, labels, as_object)
+    orig = run(name, params, batches, key, labels, as_object, rebase_at)
     drift = any(o["state"] == "drift" for o in orig)
     if name == "NNDVI":
         ctx.count("nndvi_unequal_size_pairs", sum(1 for a, b in zip(batches, batches[1:]) if len(a) != len(b)))
@@ -188,10 +206,10 @@ def run_case(case, ctx):
             orders = [np.arange(len(b))[::-1] if how == "reverse" else (np.roll(np.arange(len(b)), max(1, len(b) // 3)) if how == "rotate" else rng.permutation(len(b)))
                       for b in batches]
             pb = [b[o].copy() for b, o in zip(batches, orders)]
-            perm = run(name, params, pb, key, [l[o] for l, o in zip(labels, orders)])
+            perm = run(name, params, pb, key, [l[o] for l, o in zip(labels, orders)], False, rebase_at)
         else:
             pb = [permute(b, how, rng) for b in batches]
-            perm = run(name, params, pb, key, None, as_object)
+            perm = run(name, params, pb, key, None, as_object, rebase_at)
         ctx.count("permuted_runs_compared")
         parted = False
         for i, (a, b) in enumerate(zip(orig, perm)):
